@@ -271,6 +271,9 @@ func (s *Solver) Check() Result {
 
 // CheckWith: push, assert extra, check, pop.
 func (s *Solver) CheckWith(extra ...*Term) Result {
+	for _, e := range extra {
+		s.define(e) // definitions stay at the enclosing level: they are reused by later queries of the path
+	}
 	s.Push()
 	for _, e := range extra {
 		s.Assert(e)
